@@ -285,6 +285,10 @@ func genScopes(r *vf.RNG) []instrumentation.Scope {
 		if i == 0 && r.Chance(1, 6) {
 			s = instrumentation.Scope{}
 		}
+		if i == 1 && r.Chance(1, 5) {
+			// a scope that is nothing but a schema URL (hand-built snapshots and bridges produce these)
+			s = instrumentation.Scope{SchemaURL: "https://example.com/schema/only"}
+		}
 		dup := false
 		for _, o := range out {
 			if o == s {
